@@ -355,9 +355,11 @@ def shell_layer(ctx, text, conn):
                 except Exception as exc:  # noqa: BLE001
                     return 'EXC:%s:%s' % (type(exc).__name__, exc)
                 return out.getvalue()
+            pieces = []
             for name, query in sorted(queries.items()):
                 stmt = parser.parse(query.query_string)
                 if not isinstance(stmt, parser.ast.Select) or not isinstance(stmt.from_clause, parser.ast.From):
+                    pieces.append((name, run(query.query_string)))
                     continue
                 got = run('.run ' + name)
                 if stmt.from_clause.close:
@@ -366,12 +368,26 @@ def shell_layer(ctx, text, conn):
                     closed = query.query_string.replace('FROM year >= 2019', 'FROM year >= 2019 CLOSE ON %s' % query.date.isoformat())
                     assert closed != query.query_string
                 want = run(closed)
+                pieces.append((name, want))
                 unclosed = run(query.query_string)
                 ctx.count('oracle:named-query')
                 ctx.evaluations += 1
                 if got != want:
                     ctx.record_violation('named-query-default-close', '.run %s: %r vs closed %r (unclosed %r)' % (name, got[:200], want[:200], unclosed[:200]),
                                          payload={'ledger': text})
+            # `.run *` runs every named query the same way, under its name
+            if pieces:
+                names_out = io.StringIO()       # (the names are printed to the standard output, the results to the shell's output)
+                with contextlib.redirect_stdout(names_out):
+                    got_all = run('.run *')
+                ctx.count('oracle:named-query-all')
+                ctx.evaluations += 1
+                want_all = ''.join(p[1] for p in pieces)
+                want_names = [p[0] + ':' for p in pieces]
+                got_names = [ln for ln in names_out.getvalue().split('\n') if ln.strip()]
+                if got_all != want_all or got_names != want_names:
+                    ctx.record_violation('named-query-default-close', '.run *: %r %r vs the queries closed one by one %r %r' % (
+                        got_names, got_all[:300], want_names, want_all[:300]), payload={'ledger': text})
     finally:
         shutil.rmtree(d, ignore_errors=True)
 
